@@ -159,7 +159,7 @@ const FIRST_ID: [u64; 4] = [0, 1, 128, 1 << 32];
 const EXTRA: [u64; 4] = [0, 1, 127, 1 << 32];
 const RUNS: [u32; 4] = [0, 1, 2, u32::MAX];
 const LENS: [u32; 3] = [1, 128, u32::MAX];
-const NOFF: u64 = 5; // 0, contiguous, contiguous+1, contiguous-1, 2^62
+const NOFF: u64 = 6; // 0, contiguous, contiguous+1, contiguous-1, 2^62, contiguous+2^32
 
 /// Decode index `k` into the `i`-th entry's parameters; returns the list for combination index.
 fn small_list(n: usize, mut k: u64) -> Vec<REntry> {
@@ -184,7 +184,8 @@ fn small_list(n: usize, mut k: u64) -> Vec<REntry> {
             1 => contiguous,
             2 => contiguous + 1,
             3 => contiguous.saturating_sub(1),
-            _ => 1 << 62,
+            4 => 1 << 62,
+            _ => contiguous + (1 << 32),
         };
         v.push(REntry {
             tile_id,
@@ -196,7 +197,7 @@ fn small_list(n: usize, mut k: u64) -> Vec<REntry> {
     v
 }
 
-const PER_ENTRY: u64 = 4 * 4 * 3 * NOFF; // 240
+const PER_ENTRY: u64 = 4 * 4 * 3 * NOFF; // 288
 
 /// Tiny codec-free subset for the Miri interpreter (undefined behaviour in the reached code paths).
 fn run_miri(ctx: &mut Ctx) {
@@ -257,7 +258,7 @@ pub fn run(ctx: &mut Ctx) {
             case += 1;
         }
     }
-    ctx.extra("small_list_value_sets", json!({"first_id": FIRST_ID, "id_gap": EXTRA, "run_length": RUNS, "length": LENS, "offset": ["0", "contiguous", "contiguous+1", "contiguous-1", "2^62"]}));
+    ctx.extra("small_list_value_sets", json!({"first_id": FIRST_ID, "id_gap": EXTRA, "run_length": RUNS, "length": LENS, "offset": ["0", "contiguous", "contiguous+1", "contiguous-1", "2^62", "contiguous+2^32"]}));
     ctx.extra("exhaustive_small_lists", json!(if ctx.quick() { "n<=2 complete; n=3 every 61st" } else { "n<=3 complete" }));
 
     // ---- entry counts steered onto varint-width and power-of-two boundaries
@@ -310,6 +311,43 @@ pub fn run(ctx: &mut Ctx) {
             }
             ctx.case(entries_fp(&list) ^ 0xc5, true);
             ctx.count("regular_long_lists");
+            ctx.end(case);
+        }
+        case += 1;
+    }
+    // ---- lists whose UNCOMPRESSED encoding begins with the magic bytes of a compressed stream
+    // (count, first id and first delta chosen so that the varints spell 1f 8b 08 / 28 b5 2f fd / 78 9c)
+    let magic: [(&str, usize, u64, u64); 4] = [("gzip", 31, 11 + 128, 1), ("gzip-deflate", 31, 11 + 8 * 128, 1), ("zstd", 40, 0x35 + (0x2f << 7), 0x7d + 128), ("zlib", 120, 28 + 128, 1)];
+    for (k, (name, cnt, first_id, delta)) in magic.iter().enumerate() {
+        if ctx.mine(case) {
+            ctx.begin(case);
+            let mut rng = ctx.rng("c05.magic", k as u64);
+            let mut id = *first_id;
+            let list: Vec<REntry> = (0..*cnt as u64)
+                .map(|i| {
+                    if i == 1 {
+                        id += delta;
+                    } else if i > 1 {
+                        id += 1 + rng.below(3);
+                    }
+                    REntry { tile_id: id, offset: i * 10, length: 10, run_length: 1 }
+                })
+                .collect();
+            let spec = R::dir_encode(&list);
+            let expect: &[u8] = match *name {
+                "gzip" => &[0x1f, 0x8b],
+                "gzip-deflate" => &[0x1f, 0x8b, 0x08],
+                "zstd" => &[0x28, 0xb5, 0x2f, 0xfd],
+                _ => &[0x78, 0x9c],
+            };
+            if !spec.starts_with(expect) {
+                ctx.inconclusive(&format!("magic-prefix list for {name} does not start with the magic bytes"));
+            }
+            for codec in R::CODECS {
+                check_list(ctx, &list, codec, true, &mut rng);
+            }
+            ctx.case(entries_fp(&list) ^ 0xd7, true);
+            ctx.count("lists_whose_plain_encoding_starts_with_a_codec_magic");
             ctx.end(case);
         }
         case += 1;
